@@ -268,11 +268,9 @@ theorem convolveModn_packed (cyc : Array Nat → Array Nat → Option (Array Nat
     intro i j
     have := digitSum_le A L ((n - 1) * (n - 1)) f g hfg i j
     rwa [← hsize] at this
-  have hsq : (n - 1) * (n - 1) < n * n := by
-    have : n - 1 < n := by omega
-    exact Nat.mul_lt_mul_of_lt_of_le' this (by omega) hn |>.trans_le (le_refl _) |> fun h => by
-      calc (n - 1) * (n - 1) ≤ (n - 1) * n := Nat.mul_le_mul_left _ (by omega)
-        _ < n * n := Nat.mul_lt_mul_of_pos_right this hn
+  have hsq : (n - 1) * (n - 1) < n * n :=
+    calc (n - 1) * (n - 1) ≤ (n - 1) * n := Nat.mul_le_mul_left _ (by omega)
+      _ < n * n := Nat.mul_lt_mul_of_pos_right (by omega) hn
   have hsz : 0 < size := by rw [hsize]; exact Nat.mul_pos hL hApos
   have hDB : ∀ i j, digitSum A L f g i j < B :=
     fun i j => lt_of_le_of_lt (hDle i j) (lt_of_lt_of_le (Nat.mul_lt_mul_of_pos_left hsq hsz) hdig)
